@@ -1463,7 +1463,7 @@ fn new_infra() -> Infra {
 }
 
 pub fn run(case: &str, ctx: &mut Ctx) -> String {
-    if case.starts_with("pb ") || case.starts_with("cs ") {
+    if case.starts_with("pb ") || case.starts_with("cs ") || case.starts_with("cm ") {
         return crate::c14s::run(case, ctx);
     }
     // taken out of the thread-local for the duration of the case: a panic or an unclean end drops it
